@@ -78,7 +78,7 @@ def ensure_facts(config="default", repo=None, target_dir=None, verbose=False):
     out = os.path.join(CACHE, "facts", "%s-%s.json" % (config, key))
     if os.path.exists(out):
         return out
-    target = target_dir or os.path.join(CACHE, "target")
+    target = target_dir or os.environ.get("RFSM_TARGET_DIR") or os.path.join(CACHE, "target")
     os.makedirs(target, exist_ok=True)
     with open(os.path.join(target, ".rfsm-extract.lock"), "w") as lk:
         fcntl.flock(lk, fcntl.LOCK_EX)
@@ -122,10 +122,11 @@ def ensure_facts(config="default", repo=None, target_dir=None, verbose=False):
         fdir = os.path.join(CACHE, "facts")
         olds = sorted((os.path.getmtime(os.path.join(fdir, f)), f) for f in os.listdir(fdir) if f.endswith(".json"))
         for _, f in olds[:-12]:
-            try:
-                os.remove(os.path.join(fdir, f))
-            except OSError:
-                pass
+            for g in (f, f + ".pickle"):
+                try:
+                    os.remove(os.path.join(fdir, g))
+                except OSError:
+                    pass
     return out
 
 
